@@ -2772,7 +2772,15 @@ impl<'de, 'e> de::Deserializer<'de> for YamlDeserializer<'de, 'e> {
                         location: variant_location,
                     },
                 )?;
-                Ok((v, VA { ev, cfg, map_mode }))
+                Ok((
+                    v,
+                    VA {
+                        ev,
+                        cfg,
+                        map_mode,
+                        variant_location,
+                    },
+                ))
             }
         }
 
@@ -2780,9 +2788,23 @@ impl<'de, 'e> de::Deserializer<'de> for YamlDeserializer<'de, 'e> {
             ev: &'e mut dyn Events<'de>,
             cfg: Cfg,
             map_mode: bool,
+            variant_location: Location,
         }
 
         impl<'de, 'e> VA<'de, 'e> {
+            /// A bare scalar `Variant` carries no payload: the variant's content is read from a
+            /// single null node, never from whatever node happens to follow the scalar.
+            fn absent_payload(&self) -> ReplayEvents<'de> {
+                ReplayEvents::new(vec![Ev::Scalar {
+                    value: Cow::Borrowed(""),
+                    tag: SfTag::Null,
+                    raw_tag: None,
+                    style: ScalarStyle::Plain,
+                    anchor: 0,
+                    location: self.variant_location,
+                }])
+            }
+
             /// In map mode (`{ Variant: ... }`) ensure the closing `}` is present.
             fn expect_map_end(&mut self) -> Result<(), Error> {
                 match self.ev.next()? {
@@ -2827,6 +2849,10 @@ impl<'de, 'e> de::Deserializer<'de> for YamlDeserializer<'de, 'e> {
             where
                 T: de::DeserializeSeed<'de>,
             {
+                if !self.map_mode {
+                    let mut payload = self.absent_payload();
+                    return seed.deserialize(YamlDeserializer::new(&mut payload, self.cfg));
+                }
                 // Get locations for error reporting before deserializing.
                 let defined_location = self
                     .ev
@@ -2851,6 +2877,11 @@ impl<'de, 'e> de::Deserializer<'de> for YamlDeserializer<'de, 'e> {
             where
                 Vv: Visitor<'de>,
             {
+                if !self.map_mode {
+                    let mut payload = self.absent_payload();
+                    return YamlDeserializer::new(&mut payload, self.cfg)
+                        .deserialize_tuple(len, visitor);
+                }
                 let result =
                     YamlDeserializer::new(self.ev, self.cfg).deserialize_tuple(len, visitor)?;
                 if self.map_mode {
@@ -2868,6 +2899,11 @@ impl<'de, 'e> de::Deserializer<'de> for YamlDeserializer<'de, 'e> {
             where
                 Vv: Visitor<'de>,
             {
+                if !self.map_mode {
+                    let mut payload = self.absent_payload();
+                    return YamlDeserializer::new(&mut payload, self.cfg)
+                        .deserialize_struct("", fields, visitor);
+                }
                 let result = YamlDeserializer::new(self.ev, self.cfg)
                     .deserialize_struct("", fields, visitor)?;
                 if self.map_mode {
